@@ -115,7 +115,7 @@ def _canon_files_round_robin(req, k):
 
 def body_request(wire, sched, *, B, M=None, cl=None, chunked=False, ctype=None, tempmode='real',
                  touch=('body',), endless=None, max_calls=None, propagate=True, method='POST', retry=False, cfgvia=None, stages=None,
-                 keep_alive=False):
+                 keep_alive=False, errors_map=None):
     """Serve one request whose body stream is SimStream(wire, sched)."""
     import ombott
     o = Obs()
@@ -128,6 +128,13 @@ def body_request(wire, sched, *, B, M=None, cl=None, chunked=False, ctype=None, 
     cfg = {'max_memfile_size': B}
     if M is not None:
         cfg['max_body_size'] = M
+    te = chunked
+    if chunked is True:
+        # the spelling of the Transfer-Encoding value is a pure function of the wire as well
+        te = ['chunked', 'chunked', 'Chunked', 'gzip, chunked', 'gzip,chunked', ' chunked', 'identity , CHUNKED'][zlib.crc32(bytes(wire[:64])) % 7]
+    if errors_map == 'base_only':
+        from ombott.request_pkg import errors as rq_errors
+        cfg['errors_map'] = {rq_errors.RequestError: ombott.HTTPError(400, 'bad request body')}
     if cfgvia is None:
         # both ways of configuring an application must behave alike; which one a run uses is a pure function of its wire
         cfgvia = 'setup' if zlib.crc32(bytes(wire[:256])) % 4 == 0 else 'ctor'
@@ -144,14 +151,14 @@ def body_request(wire, sched, *, B, M=None, cl=None, chunked=False, ctype=None, 
         with no_preempt():
             if SHARED['app'] is None:
                 SHARED['app'] = make_app()
-                SHARED['cfg'] = cfg
+                SHARED['cfg'] = (B, M, errors_map, cfgvia)
                 SHARED['handlers'] = {}
                 # one route for all threads of the run, registered before any of them serves
                 # (registering routes while another thread is resolving is not what is under test)
                 SHARED['app'].route('/x/<k:int>', method=['GET', 'POST', 'PUT', 'PATCH', 'DELETE'],
                                     callback=lambda k, _h=SHARED['handlers']: _h[k]())
-            elif SHARED['cfg'] != cfg:
-                raise AssertionError(f'twin threads disagree on the application config: {SHARED["cfg"]} vs {cfg}')
+            elif SHARED['cfg'] != (B, M, errors_map, cfgvia):
+                raise AssertionError(f'twin threads disagree on the application config: {SHARED["cfg"]} vs {(B, M, errors_map, cfgvia)}')
             app = SHARED['app']
             SHARED['n'] += 1
             path = '/x/%d' % SHARED['n']
@@ -171,7 +178,9 @@ def body_request(wire, sched, *, B, M=None, cl=None, chunked=False, ctype=None, 
                 seen['body_same_obj'] = b2 is b
             elif t == 'copy_body':
                 # a copy taken after the body was consumed (position at the end) and after a partial read
-                seen['copy_body'] = req.copy().body.read()
+                cp_body = req.copy().body
+                seen['copy_body_spilled'] = seam.owns(cp_body)
+                seen['copy_body'] = cp_body.read()
                 b = req.body
                 b.read(3)
                 seen['copy_body_partial'] = req.copy().body.read()
@@ -193,6 +202,8 @@ def body_request(wire, sched, *, B, M=None, cl=None, chunked=False, ctype=None, 
                 seen['input'] = inp.read()
             elif t == 'forms':
                 seen['forms'] = _canon_forms(req.forms)
+            elif t == 'body_quiet':
+                req.body.read()
             elif t == 'forms_quiet':
                 # an earlier stage (a hook) looks at the form without keeping anything
                 req.forms
@@ -268,7 +279,7 @@ def body_request(wire, sched, *, B, M=None, cl=None, chunked=False, ctype=None, 
         else:
             app.route(path, method=method, callback=handler)
         env = make_environ(method, path, stream=stream, content_length=cl, content_type=ctype,
-                           chunked=chunked, errors=ErrStream())
+                           chunked=te, errors=ErrStream())
         o.environ = env
         o.resp = call_app(app, env)
         o.seam_created = seam.created
